@@ -1,0 +1,91 @@
+//go:build verif
+
+package swap
+
+import (
+	"math/big"
+
+	"github.com/MinterTeam/minter-go-node/coreV2/types"
+)
+
+// VerifOrder is a copy of a live limit order in owner terms.
+type VerifOrder struct {
+	ID       uint32
+	PoolID   uint32
+	SellCoin types.CoinID
+	BuyCoin  types.CoinID
+	Sell     *big.Int
+	Buy      *big.Int
+	Owner    types.Address
+	Height   uint64
+}
+
+// VerifOrders enumerates every live order (in-memory changes overlaid on the committed tree)
+// without touching the sort lists or caches. It also returns the next order id.
+func (s *SwapV2) VerifOrders() ([]VerifOrder, uint32) {
+	s.muNextOrdersID.Lock()
+	next := s.loadNextOrdersID()
+	s.muNextOrdersID.Unlock()
+
+	s.muPairs.RLock()
+	pairs := make([]*PairV2, 0, len(s.pairs))
+	for _, p := range s.pairs {
+		if p != nil {
+			pairs = append(pairs, p)
+		}
+	}
+	s.muPairs.RUnlock()
+
+	var res []VerifOrder
+	for id := uint32(1); id < next; id++ {
+		var order *Limit
+		found, deleted := false, false
+		for _, p := range pairs {
+			p.orders.mu.RLock()
+			l, ok := p.orders.list[id]
+			p.orders.mu.RUnlock()
+			if ok {
+				found = true
+				order = l
+				if l == nil || p.isOrderAlreadyUsed(id) {
+					deleted = true
+				}
+				break
+			}
+		}
+		if !found {
+			order = s.loadOrder(id)
+			if order != nil {
+				for _, p := range pairs {
+					if p.PairKey.sort() == order.PairKey.sort() && p.isOrderAlreadyUsed(id) {
+						deleted = true
+					}
+				}
+			}
+		}
+		if order == nil || deleted {
+			continue
+		}
+		o := order.sort()
+		o.mu.RLock()
+		wb, ws := new(big.Int).Set(o.WantBuy), new(big.Int).Set(o.WantSell)
+		isBuy, owner, height, key := o.IsBuy, o.Owner, o.Height, o.PairKey
+		o.mu.RUnlock()
+		if wb.Sign() == 0 || ws.Sign() == 0 {
+			continue
+		}
+		v := VerifOrder{ID: id, Owner: owner, Height: height}
+		for _, p := range pairs {
+			if p.PairKey.sort() == key.sort() {
+				v.PoolID = p.GetID()
+			}
+		}
+		if isBuy {
+			v.SellCoin, v.BuyCoin, v.Sell, v.Buy = key.Coin0, key.Coin1, wb, ws
+		} else {
+			v.SellCoin, v.BuyCoin, v.Sell, v.Buy = key.Coin1, key.Coin0, ws, wb
+		}
+		res = append(res, v)
+	}
+	return res, next
+}
